@@ -277,7 +277,7 @@ class Ribosome:
         else:
             mrna = template
 
-        sequence = mrna.sequence
+        sequence = self._escape(mrna.sequence)
 
         # Check required variables (names bound by an enclosing {{#each}} block --
         # item/index/first/last and the keys of dict items -- are not required
@@ -385,7 +385,7 @@ class Ribosome:
                 if var_name in context:
                     result = result.replace(match.group(0), self._shield(str(context[var_name])))
                 else:
-                    result = result.replace(match.group(0), self._shield(value_or_default))
+                    result = result.replace(match.group(0), value_or_default.translate(self._BRACES))
 
         # Optional variables: {{?name}}
         def replace_optional(match: re.Match) -> str:
@@ -529,14 +529,27 @@ class Ribosome:
     # Text that enters the output as data (bound values, loop items, defaults, rendered
     # includes) has its braces replaced by private-use stand-ins until rendering is
     # finished, so that the remaining passes cannot read it as template syntax.
-    _SHIELD = str.maketrans({"{": "\ue000", "}": "\ue001"})
-    _UNSHIELD = str.maketrans({"\ue000": "{", "\ue001": "}"})
+    # Stand-in characters that are already present in the template text or in a value
+    # are escaped (prefixed with U+E002) on the way in, so that they come out unchanged.
+    _ESCAPE = str.maketrans(
+        {"\ue000": "\ue002\ue000", "\ue001": "\ue002\ue001", "\ue002": "\ue002\ue002"}
+    )
+    _BRACES = str.maketrans({"{": "\ue000", "}": "\ue001"})
+    _UNSHIELD = re.compile("\ue002(.)|[\ue000\ue001]", re.DOTALL)
+
+    def _escape(self, text: str) -> str:
+        return text.translate(self._ESCAPE)
 
     def _shield(self, text: str) -> str:
-        return text.translate(self._SHIELD)
+        return self._escape(text).translate(self._BRACES)
 
     def _unshield(self, text: str) -> str:
-        return text.translate(self._UNSHIELD)
+        def restore(match: re.Match) -> str:
+            if match.group(1) is not None:
+                return match.group(1)
+            return "{" if match.group(0) == "\ue000" else "}"
+
+        return self._UNSHIELD.sub(restore, text)
 
     def _process_includes(
         self,
